@@ -29,7 +29,8 @@ Record snap := mkSnap {
   s_req : nat;              (* requests the endpoint has seen so far *)
   s_delivered : bool;       (* this step was a release and a request was waiting for it *)
   s_stat : list status;     (* per caller, arrival order *)
-  s_cache : list nat;       (* key materials in cachedKeys (verif hook) *)
+  s_cache : list jwk;       (* cachedKeys as the verif hook reads them: kid, key type, use and key
+                               material of every entry, in order *)
   s_quiet : bool }.         (* the driver saw a stable state within its time-out: every unfinished
                                call parked in keysFromRemote's select, and the in-flight slot
                                occupied exactly when a download is waiting at the endpoint *)
@@ -65,7 +66,7 @@ Definition status_of (c : caller) : status :=
   end.
 
 Definition snap_of (w : world) (d : bool) : snap :=
-  mkSnap (w_fetches w) d (map status_of (w_callers w)) (map k_mat (w_cache w)) true.
+  mkSnap (w_fetches w) d (map status_of (w_callers w)) (w_cache w) true.
 
 Fixpoint run_script (w : world) (ms : list mstep) : list snap :=
   match ms with
@@ -127,6 +128,13 @@ Definition unique_match (ks : list jwk) (tok : token) : bool :=
   | [k] => Nat.eqb (k_mat k) (t_signer tok)
   | _ => false
   end.
+(* ground truth for "an unknown key ID is rejected": the token's kid (compared byte for byte:
+   no case folding, no trimming, no prefix) is one the served set publishes on a key that can
+   verify this token at all - or the token names no kid, or the set publishes such a key
+   without kid (the only key a kid the set does not know may fall back to) *)
+Definition kid_known (ks : list jwk) (tok : token) : bool :=
+  String.eqb (t_kid tok) ""
+  || existsb (fun k => fits tok k && (String.eqb (k_kid k) (t_kid tok) || String.eqb (k_kid k) "")) ks.
 (* interpretive guard of the arrival clause: the cached ground truth does not bind the token's
    kid to ANOTHER usable key of the right type (kid reuse across a rotation: the cached exact
    match fails for good, no refresh), and a kid-less token is not used with SkipRemoteCheck
@@ -171,9 +179,10 @@ Definition check_step (skip : bool) (g : truth) (p s : snap) (m : mstep) : bool 
     && (s_req s <=? S deliv')           (* single flight: at most one download not yet answered *)
     && (s_req s <=? n)                  (* at most one refresh per call *)
     && (negb (s_delivered s) || is_release)
-    && list_eqb Nat.eqb (s_cache s) (map k_mat good')
-         (* the cached keys are the list the last good download served: no verification, cancel
-            or failed download alters them *)
+    && list_eqb jwk_eqb (s_cache s) good'
+         (* the cached keys are the list the last good download served - every entry with its
+            kid, key type, use and material, in order: no verification, cancel or failed
+            download alters them *)
     && forallb (fun t => negb (newly t) || mem t canc' || own_arrival t || s_delivered s) tids
          (* cancel isolation: a call whose context is live finishes only by itself
             (on arrival, from the cache) or because the endpoint answered *)
@@ -186,7 +195,7 @@ Definition check_step (skip : bool) (g : truth) (p s : snap) (m : mstep) : bool 
         let t := List.length (gt_toks g) in
         (negb (unique_match (gt_good g) tok) || (is_ok (stat_at s t) && Nat.eqb (s_req s) (s_req p)))
           (* a key of the last good download still verifies, without a new download *)
-        && (negb (is_ok (stat_at s t)) || signer_in (gt_good g) tok)
+        && (negb (is_ok (stat_at s t)) || (signer_in (gt_good g) tok && kid_known (gt_good g) tok))
         && (negb (unique_match (gt_pub g) tok) || mem t canc' || negb (no_kid_conflict skip (gt_good g) tok)
             || is_pending (stat_at s t) || is_ok (stat_at s t))
           (* a token signed by a key the endpoint publishes NOW (e.g. newly rotated) is not turned
@@ -206,11 +215,11 @@ Definition check_step (skip : bool) (g : truth) (p s : snap) (m : mstep) : bool 
           && match parse r with
              | Some ks =>
                  forallb (fun t => negb (is_pending (stat_at p t)) ||
-                    ((negb (is_ok (stat_at s t)) || signer_in ks (tok_at g' t))
+                    ((negb (is_ok (stat_at s t)) || (signer_in ks (tok_at g' t) && kid_known ks (tok_at g' t)))
                      && (negb (unique_match ks (tok_at g' t)) || mem t canc' || is_ok (stat_at s t)))) tids
              | None =>
                  forallb (fun t => negb (is_pending (stat_at p t)) || negb (is_ok (stat_at s t))) tids
-                 && list_eqb Nat.eqb (s_cache s) (s_cache p)   (* cached keys not discarded *)
+                 && list_eqb jwk_eqb (s_cache s) (s_cache p)   (* cached keys not discarded *)
              end
         else true
     end in
@@ -232,7 +241,7 @@ Definition spec (i : input) (o : observed) : bool :=
 
 Definition snap_eqb (a b : snap) : bool :=
   Nat.eqb (s_req a) (s_req b) && Bool.eqb (s_delivered a) (s_delivered b)
-  && list_eqb status_eqb (s_stat a) (s_stat b) && list_eqb Nat.eqb (s_cache a) (s_cache b)
+  && list_eqb status_eqb (s_stat a) (s_stat b) && list_eqb jwk_eqb (s_cache a) (s_cache b)
   && Bool.eqb (s_quiet a) (s_quiet b).
 
 Definition obs_eqb (a b : observed) : bool :=
